@@ -732,21 +732,18 @@ def _structural(ctx) -> None:
     INIT = ("param", vn.params[1])
 
     def vtruth(t):
-        k = t[0]
-        if k == "bool":
-            vs = [vtruth(x) for x in t[2]]
-            if t[1] == "and":
-                return False if any(v is False for v in vs) else (True if all(v is True for v in vs) else None)
-            return True if any(v is True for v in vs) else (False if all(v is False for v in vs) else None)
-        if k == "un" and t[1] == "Not":
-            v = vtruth(t[2])
-            return None if v is None else not v
-        if k == "call" and t[1] == ("name", "isinstance") and len(t[2]) == 2 and t[2][0] == INIT:
-            names = {x[1] for x in subterms(t[2][1]) if x[0] == "name"}
-            return "Vector" in names
-        if k == "cmp" and t[1] in ("LtE", "Lt", "Eq") and t[2] == ("call", ("attr", INIT, "ndims"), (), ()) and t[3][0] == "const":
-            return {"LtE": 1 <= t[3][2], "Lt": 1 < t[3][2], "Eq": 1 == t[3][2]}[t[1]]
-        return None
+        """three-valued truth of a condition for `initial` = a one-dimensional vector (serifscan/tv.py: and / or / not / conditional
+        expressions / constants - a flag computed by an if-elif chain is a nested conditional of constants)"""
+        from ..tv import tv as _tv
+
+        def atom(x):
+            if x[0] == "call" and x[1] == ("name", "isinstance") and len(x[2]) == 2 and x[2][0] == INIT:
+                names = {y[1] for y in subterms(x[2][1]) if y[0] == "name"}
+                return "Vector" in names
+            if x[0] == "cmp" and x[1] in ("LtE", "Lt", "Eq") and x[2] == ("call", ("attr", INIT, "ndims"), (), ()) and x[3][0] == "const":
+                return {"LtE": 1 <= x[3][2], "Lt": 1 < x[3][2], "Eq": 1 == x[3][2]}[x[1]]
+            return None
+        return _tv(t, atom)
 
     def vval(t):
         if t == INIT:
